@@ -56,9 +56,11 @@ def generate(rng, tier):
         cases.append(mk(w, s, n, rng.choice(INNERS), rng.choice(['top', 'group', 'keys', 'nested', 'split', 'keys']), rng))
     # scale: large windows and strides (ring density arithmetic at window = k*stride + small remainder), keys with
     # more items than 16-bit counters hold
-    big = [(201, 200), (501, 250), (1001, 1000), (64, 50), (50, 7), (128, 128), (257, 3), (300, 299), (256, 255), (3, 200)]
-    for (w, s) in (rng.sample(big, 5) if tier == 'quick' else big if tier == 'thorough' else rng.sample(big, 1)):
-        for n in ([w + s + 3] if tier != 'thorough' else [w - 1, w, w + s + 3, 2 * w + 5]):
+    big = [(201, 200), (501, 250), (1001, 1000), (64, 50), (50, 7), (128, 128), (257, 3), (300, 299), (256, 255), (3, 200),
+           (257, 257), (300, 300), (1000, 1000), (400, 150)]
+    # every entry in every run (a sample would make the detection of a defect at one size a matter of luck)
+    for (w, s) in (big if tier != 'search' else rng.sample(big, 1)):
+        for n in ([2 * w + s + 3] if tier != 'thorough' else [w - 1, w, w + s + 3, 2 * w + s + 3]):
             cases.append(mk(w, s, n, [['to_list']], 'top', rng))
     if tier != 'search':
         for (w, s) in ([rng.choice([(3, 2), (4, 2), (5, 3)])] if tier == 'quick' else [(3, 2), (4, 2), (5, 3), (50, 7)]):
